@@ -586,6 +586,24 @@ fn call_search(inp: &Value) -> Value {
     result_json(res)
 }
 
+/// search_with_offset with a workload closure that logs every interval length it is asked about: the recorded
+/// sequence is the iteration the implementation actually ran (MCFixedPoint's machine, observed without a hook)
+fn call_search_trace(inp: &Value) -> Value {
+    let sup = build_supply(&inp["supply"]);
+    let w = us(&inp["w"]);
+    let asked = std::cell::RefCell::new(Vec::<u64>::new());
+    let wl = |x: response_time_analysis::time::Duration| {
+        asked.borrow_mut().push(u64::from(x));
+        let i = (u64::from(x) as usize).clamp(1, w.len());
+        s(w[i - 1])
+    };
+    let lim = d(u(&inp["lim"]));
+    let off = u(&inp["off"]);
+    let res = fixed_point::search_with_offset(&sup, Offset::from(off), lim, &wl);
+    let a = asked.borrow().clone();
+    json!({"res": result_json(res), "asked": a})
+}
+
 fn call_maxrt(inp: &Value) -> Value {
     let rs: Vec<fixed_point::SearchResult> = inp["rs"]
         .as_array()
@@ -660,7 +678,10 @@ pub fn run_search(ctx: &mut Ctx) {
                         }
                         let via = if off == 0 && lim % 2 == 1 { "search" } else { "offset" };
                         let inp = json!({"supply": sd2, "w": w, "off": off, "lim": lim, "via": via});
-                        ctx.call("search", inp, call_search);
+                        ctx.call("search", inp.clone(), call_search);
+                        if via == "offset" && !dflt {
+                            ctx.call("search_trace", inp, call_search_trace);
+                        }
                     }
                 }
             }
@@ -703,7 +724,10 @@ pub fn run_search(ctx: &mut Ctx) {
         let lim = ctx.rng.gen_range(1..=80);
         let via = if off == 0 && ctx.rng.gen_bool(0.5) { "search" } else { "offset" };
         let inp = json!({"supply": sd, "w": w, "off": off, "lim": lim, "via": via});
-        ctx.call("search", inp, call_search);
+        ctx.call("search", inp.clone(), call_search);
+        if via == "offset" {
+            ctx.call("search_trace", inp, call_search_trace);
+        }
     }
     // max_response_time: all short sequences over a small alphabet + random
     let alpha = [json!({"ok": 0}), json!({"ok": 3}), json!({"ok": 7}),
